@@ -479,7 +479,11 @@ class XMLReader(object):
 
         if insert_children:
             for child in children:
-                obj.append(child)
+                try:
+                    obj.append(child)
+                except Exception as exc:
+                    # e.g. a second Section or Property with the same name
+                    self.error(str(exc), root)
 
         return obj
 
